@@ -171,7 +171,8 @@ Section Exact.
     | GNew => add_value_to_generation V (s_new s) v (m_len (s_new s) - 1) = SOk (s_new s1) /\ s_prev s1 = s_prev s /\ s_cur s1 = s_cur s
     end.
   Proof.
-    unfold stream_add_value. intros H. apply sbind_ok in H. destruct H as (s2 & H1 & H2).
+    unfold stream_add_value. destruct (generation_in_range g); cbn [negb]; [|discriminate].
+    intros H. apply sbind_ok in H. destruct H as (s2 & H1 & H2).
     apply sbind_ok in H2. destruct H2 as ([] & H2 & H3). inversion H3; subst s2. clear H3.
     unfold check_stream_size_limit in H2. destruct (N.leb_spec stream_max_size (stream_size V s1)); [discriminate|].
     split; [assumption|].
@@ -182,6 +183,13 @@ Section Exact.
       unfold new_add_to_last_generation in H1. apply sbind_ok in H1. destruct H1 as (i & Hi & H1).
       apply new_last_idx_spec in Hi. subst i. auto.
   Qed.
+
+  (* the guard of Stream::add_value: a successful append used a generation index below STREAM_MAX_SIZE *)
+  Lemma stream_add_in_range (s s1 : stream) v g : stream_add_value V s v g = SOk s1 -> generation_in_range g = true.
+  Proof. unfold stream_add_value. destruct (generation_in_range g); cbn [negb]; [reflexivity|discriminate]. Qed.
+  Lemma stream_add_out_of_range (s : stream) v g : generation_in_range g = false ->
+    stream_add_value V s v g = SErr StreamSizeLimitExceeded.
+  Proof. intros H. unfold stream_add_value. rewrite H. reflexivity. Qed.
 
   (* the three cases at once: one matrix receives the value, the others are unchanged *)
   Lemma stream_add_cases (s s1 : stream) v g : stream_add_value V s v g = SOk s1 ->
@@ -250,7 +258,8 @@ Section Exact.
     - pose proof (stream_add_cases _ _ _ _ H) as (L & _).
       split; [eapply stream_add_size; eauto|]. split; [exact L|].
       split; [eapply stream_add_perm; eauto|eapply stream_add_wf; eauto].
-    - destruct e. unfold stream_add_value in H.
+    - destruct e. destruct (generation_in_range g) eqn:R; [left|right; reflexivity].
+      unfold stream_add_value in H. rewrite R in H. cbn [negb] in H.
       destruct g as [pg|cg|]; cbn in H.
       + destruct (add_value_to_generation V (s_prev s) v pg) as [m|e'|] eqn:A; cbn in H; try discriminate; [|exfalso; eauto using add_gen_no_err, new_add_no_err].
         unfold check_stream_size_limit in H.
@@ -268,6 +277,69 @@ Section Exact.
         apply add_gen_cells in A. destruct A as (_ & A & _). lia.
     - exact I.
   Qed.
+
+  (* ---- the generation guard of Stream::add_value (fix C01-stream-generation-resize) ---- *)
+  Lemma max_size_fits_u32 : stream_max_size <= gen_u32_max.
+  Proof. apply N.leb_le. vm_compute. reflexivity. Qed.
+
+  (* values_matrix.rs:77 `generation_idx.checked_add(1).unwrap()` cannot panic under Stream::add_value:
+     a previous/current index reaches the matrix only when it is below STREAM_MAX_SIZE, and the index
+     used for `new` is the last row *)
+  Lemma check_no_crash (s1 : stream) site :
+    sbind (check_stream_size_limit V s1) (fun _ : unit => SOk s1) <> SCrash site.
+  Proof. unfold check_stream_size_limit. destruct (stream_max_size <=? stream_size V s1); cbn [sbind]; discriminate. Qed.
+  Theorem add_value_no_checked_add_crash (s : stream) v g : stream_add_value V s v g <> SCrash SiteGenCheckedAddOne.
+  Proof.
+    pose proof max_size_fits_u32 as M.
+    unfold stream_add_value. destruct (generation_in_range g) eqn:R; cbn [negb]; [|discriminate].
+    assert (A : forall m k, k < stream_max_size \/ k < m_len m ->
+                add_value_to_generation V m v k <> SCrash SiteGenCheckedAddOne).
+    { intros m k Hk. unfold add_value_to_generation.
+      destruct (N.leb_spec (m_len m) k); [|discriminate].
+      destruct (N.leb_spec gen_u32_max k); [|discriminate]. lia. }
+    destruct g as [pg|cg|]; cbn [generation_in_range] in R.
+    - apply N.ltb_lt in R. specialize (A (s_prev s) pg (or_introl R)).
+      destruct (add_value_to_generation V (s_prev s) v pg) as [m|e|c]; cbn [sbind].
+      + apply check_no_crash.
+      + discriminate.
+      + intros E. apply A. inversion E. reflexivity.
+    - apply N.ltb_lt in R. specialize (A (s_cur s) cg (or_introl R)).
+      destruct (add_value_to_generation V (s_cur s) v cg) as [m|e|c]; cbn [sbind].
+      + apply check_no_crash.
+      + discriminate.
+      + intros E. apply A. inversion E. reflexivity.
+    - unfold new_add_to_last_generation, new_last_non_empty_generation_idx, gen_idx_from_usize.
+      destruct (N.eqb_spec (m_len (s_new s)) 0) as [Z|Z]; cbn [sbind].
+      + assert (P0 : 0 < stream_max_size) by (apply N.ltb_lt; vm_compute; reflexivity).
+        assert (A0 := A (s_new s) 0 (or_introl P0)).
+        destruct (add_value_to_generation V (s_new s) v 0) as [m|e|c]; cbn [sbind].
+        * apply check_no_crash.
+        * discriminate.
+        * intros E. apply A0. inversion E. reflexivity.
+      + destruct (m_len (s_new s) - 1 <=? gen_u32_max); cbn [sbind]; [|discriminate].
+        assert (P1 : m_len (s_new s) - 1 < m_len (s_new s)) by lia.
+        assert (A1 := A (s_new s) (m_len (s_new s) - 1) (or_intror P1)).
+        destruct (add_value_to_generation V (s_new s) v (m_len (s_new s) - 1)) as [m|e|c]; cbn [sbind].
+        * apply check_no_crash.
+        * discriminate.
+        * intros E. apply A1. inversion E. reflexivity.
+  Qed.
+
+  (* `resize` under an accepted or refused add_value allocates at most STREAM_MAX_SIZE rows
+     (before the fix: up to 2^32 rows for a crafted generation index) *)
+  Theorem add_value_resize_bounded (s : stream) (g : generation) :
+    generation_in_range g = true -> stream_grow_rows V s g <= stream_max_size.
+  Proof.
+    intros R. pose proof max_size_fits_u32 as M.
+    destruct g as [pg|cg|]; cbn [generation_in_range stream_grow_rows] in *.
+    - apply N.ltb_lt in R. unfold matrix_grow_rows. destruct (N.leb_spec (m_len (s_prev s)) pg); lia.
+    - apply N.ltb_lt in R. unfold matrix_grow_rows. destruct (N.leb_spec (m_len (s_cur s)) cg); lia.
+    - assert (1 <= stream_max_size) by (apply N.leb_le; vm_compute; reflexivity).
+      destruct (m_len (s_new s) =? 0); lia.
+  Qed.
+  Theorem add_value_refused_untouched (s : stream) v g :
+    generation_in_range g = false -> stream_add_value V s v g = SErr StreamSizeLimitExceeded.
+  Proof. apply stream_add_out_of_range. Qed.
 
   (* generalised over the start stream *)
   Lemma add_all_exact (l : list (V * generation)) : forall s0 s, wf_stream V s0 -> add_all V s0 l = SOk s ->
